@@ -8,9 +8,10 @@ import struct
 BASIC_INT = {'y': (0, 255), 'n': (-2**15, 2**15 - 1), 'q': (0, 2**16 - 1), 'i': (-2**31, 2**31 - 1),
              'u': (0, 2**32 - 1), 'x': (-2**63, 2**63 - 1), 't': (0, 2**64 - 1)}
 KEY_TYPES = 'ybnqiuxtdsog'
-STRINGS = ['', 'a', 'hello', 'é', '日本語', '😀x', 'a b', 'x' * 17, '\x7f', 'tab\there']
+STRINGS = ['', 'a', 'hello', 'é', '日本語', '😀x', 'a b', 'x' * 17, '\x7f', 'tab\there', 'x' * 127, 'é' * 64, 'x' * 255, 'x' * 256]
 PATHS = ['/', '/a', '/a/b', '/org/freedesktop/DBus', '/a_1/B2']
-SIGS = ['', 'i', 'a{sv}', '(ii)', 'aai', 'v', 's' * 20]
+SIGS = ['', 'i', 'a{sv}', '(ii)', 'aai', 'v', 's' * 20,
+        'y' * 127, 'y' * 128, 'i' * 200, 'ay' * 127, 'y' * 255]      # the one-byte length: 127/128 (sign bit) and the 255 limit
 DOUBLES = [0, 0x8000000000000000, 0x3ff0000000000000, 0xbff8000000000000, 0x7ff0000000000000,
            0xfff0000000000000, 0x7ff8000000000000, 0x0000000000000001, 0x7fefffffffffffff,
            0x400921fb54442d18]
